@@ -25,6 +25,7 @@ import (
 
 type rdConn struct {
 	kind    string
+	setD    func(time.Time) error // SetDeadline (read and write side), nil if the type has none
 	setRD   func(time.Time) error
 	read    func([]byte) (int, error)
 	deliver func(p []byte)
@@ -52,7 +53,7 @@ func mkRdConn(kind string) *rdConn {
 		return &rdConn{kind: kind, setRD: b.SetReadDeadline, read: b.Read, deliver: func(p []byte) { _, _ = b.Write(p) }}
 	case "dpipe":
 		c0, c1 := dpipe.Pipe()
-		return &rdConn{kind: kind, setRD: c0.SetReadDeadline, read: c0.Read, deliver: func(p []byte) { _, _ = c1.Write(p) }}
+		return &rdConn{kind: kind, setD: c0.SetDeadline, setRD: c0.SetReadDeadline, read: c0.Read, deliver: func(p []byte) { _, _ = c1.Write(p) }}
 	case "udpconn":
 		fakenet.Reset()
 		l, err := udp.Listen("udp", &net.UDPAddr{IP: net.IPv4(127, 0, 0, 1), Port: 4000})
@@ -70,7 +71,7 @@ func mkRdConn(kind string) *rdConn {
 		if n, err := c.Read(buf); err != nil || string(buf[:n]) != "hello" {
 			panic(fmt.Sprint("udpconn setup: first datagram not readable: ", n, err))
 		}
-		return &rdConn{kind: kind, setRD: c.SetReadDeadline, read: c.Read, deliver: func(p []byte) { sock.Inject(remote, p) }}
+		return &rdConn{kind: kind, setD: c.SetDeadline, setRD: c.SetReadDeadline, read: c.Read, deliver: func(p []byte) { sock.Inject(remote, p) }}
 	case "vnet-loopback":
 		n, err := vnet.NewNet(&vnet.NetConfig{})
 		if err != nil {
@@ -85,7 +86,7 @@ func mkRdConn(kind string) *rdConn {
 			panic(err)
 		}
 		dst := &net.UDPAddr{IP: net.IPv4(127, 0, 0, 1), Port: 5000}
-		return &rdConn{kind: kind, setRD: c.SetReadDeadline, read: c.Read, deliver: func(p []byte) { _, _ = w.WriteTo(p, dst) }}
+		return &rdConn{kind: kind, setD: c.SetDeadline, setRD: c.SetReadDeadline, read: c.Read, deliver: func(p []byte) { _, _ = w.WriteTo(p, dst) }}
 	case "vnet-routed":
 		r, err := vnet.NewRouter(&vnet.RouterConfig{CIDR: "10.0.0.0/24", LoggerFactory: logging.NewDefaultLoggerFactory()})
 		if err != nil {
@@ -111,7 +112,7 @@ func mkRdConn(kind string) *rdConn {
 			panic(err)
 		}
 		dst := &net.UDPAddr{IP: net.ParseIP("10.0.0.1"), Port: 5000}
-		return &rdConn{kind: kind, setRD: c.SetReadDeadline, read: c.Read,
+		return &rdConn{kind: kind, setD: c.SetDeadline, setRD: c.SetReadDeadline, read: c.Read,
 			deliver: func(p []byte) { _, _ = w.WriteTo(p, dst); zzvsched.WaitQuiet(time.Microsecond) },
 			cleanup: func() { _ = r.Stop() }}
 	case "bridge":
@@ -120,7 +121,7 @@ func mkRdConn(kind string) *rdConn {
 		stop := false
 		pending := 0
 		var cell uint64
-		rc := &rdConn{kind: kind, setRD: c0.SetReadDeadline}
+		rc := &rdConn{kind: kind, setD: c0.SetDeadline, setRD: c0.SetReadDeadline}
 		// the ticking peer: ticks every millisecond while a message is queued and somebody is in Read
 		zzvsched.GoNamed("ticker", func() {
 			for {
@@ -144,7 +145,8 @@ func mkRdConn(kind string) *rdConn {
 	panic("kind " + kind)
 }
 
-var c10ops = []string{"SRD(zero)", "SRD(past)", "SRD(+10ms)", "SRD(+100ms)", "idle(20ms)", "idle(200ms)", "deliver", "Read"}
+// SD(T) = SetDeadline with one fixed absolute time T = start + 150 ms (the same value every time it is used)
+var c10ops = []string{"SRD(zero)", "SRD(past)", "SRD(+10ms)", "SRD(+100ms)", "idle(20ms)", "idle(200ms)", "deliver", "Read", "SD(T)"}
 
 type dlEntry struct {
 	at   time.Duration // when the SetReadDeadline call began
@@ -260,6 +262,15 @@ func c10scenario(kind string, steps, bound int, reader bool, go123 bool) *explor
 					}
 					t := zzvsched.Now().Add(d)
 					setRD(t, t.Sub(zzvsched.Base))
+				case "SD(T)":
+					if c.setD == nil {
+						script[len(script)-1] = "skip"
+						continue
+					}
+					t := zzvsched.Base.Add(150 * time.Millisecond)
+					dls = append(dls, dlEntry{at: zzvsched.Elapsed(), d: t.Sub(zzvsched.Base)})
+					_ = c.setD(t)
+					dls[len(dls)-1].done = zzvsched.Elapsed() + 1
 				case "idle(20ms)":
 					zzvsched.SleepIdle(20 * time.Millisecond)
 				case "idle(200ms)":
